@@ -193,7 +193,9 @@ def main(argv):
             # ---- function-level correspondence checks (Q queries) with their own monitors
             qsummaries = []
             for qfn in spec.get("q_checks", []):
+                tq = time.time()
                 qr = qfn(tier, seed)
+                log(f"[Q] {prop}: {getattr(qfn, '__name__', 'q_check')} {time.time() - tq:.1f}s evals={qr['evaluations']} ties={len(qr['ties'])} fails={len(qr['fails'])}")
                 stats["evaluations"] += qr["evaluations"]
                 stats["traces_validated_against_impl"] += qr["evaluations"] - len(qr["ties"])
                 stats["q_nontrivial"] += qr["nontrivial"]
